@@ -114,6 +114,8 @@ def check_program(h, m, ctor, arr, hits, out, fops='', getdel=None, reset=None):
         return
     if kv2.get('fixedmismatch', '0') != '0':
         out.append(Violation('parse-back', 'fixed-array-block-read', 'dbus_message_iter_get_fixed_array / get_element_count (from the first and from later positions) disagree with element-wise iteration', dict(case, bytes=b1.hex())))
+    if kv2.get('getargsmismatch', '0') != '0':
+        out.append(Violation('parse-back', 'get_args', 'dbus_message_get_args() returns other values than the iterator walk of the same message', dict(case, bytes=b1.hex())))
     if kv2.get('re0') != b1.hex():
         out.append(Violation('remarshal', 'not-identical', 're-serialisation is not byte-identical', dict(case, bytes=b1.hex())))
     hits['parse-back'] = hits.get('parse-back', 0) + 1
@@ -130,6 +132,8 @@ def check_program(h, m, ctor, arr, hits, out, fops='', getdel=None, reset=None):
     kv3 = parse_kv(r3.split(' canon=', 1)[0])
     if kv3.get('fixedmismatch', '0') != '0':
         out.append(Violation('byteswap', 'fixed-array-block-read', 'block reads of fixed arrays disagree with element-wise iteration after conversion from the other byte order', dict(case, bytes=b_be.hex())))
+    if kv3.get('getargsmismatch', '0') != '0':
+        out.append(Violation('byteswap', 'get_args', 'dbus_message_get_args() returns other values than the iterator walk after conversion from the other byte order', dict(case, bytes=b_be.hex())))
     if kv3.get('dm') != '1' or canon3 != want:
         out.append(Violation('byteswap', 'values', 'big-endian encoding of the same message reads back differently\n want: %s\n got : %s' % (want, canon3), dict(case, bytes=b_be.hex())))
         return
@@ -159,6 +163,42 @@ def task_batch(items):
             'n': len(items), 'hits': hits}
 
 
+def _flat(sig):
+    return (len(sig) == 1 and sig in b'ybnqiuxtdsog') or (len(sig) == 2 and sig[:1] == b'a' and sig[1:2] in b'ybnqiuxtdsog')
+
+
+def varargs_bodies():
+    """Bodies for dbus_message_append_args / dbus_message_get_args: every pair of (basic | array) arguments so that each
+    kind follows each alignment, arrays of 0..3 elements, the 8-argument maximum of the harness."""
+    basics = [(b'y', 200), (b'b', 1), (b'n', -3), (b'q', 65535), (b'i', -7), (b'u', 4000000000), (b'x', -(1 << 40)), (b't', (1 << 63) + 5),
+              (b'd', 0x7ff8000000000001), (b's', b'str'), (b's', b''), (b'o', b'/o/p'), (b'g', b'a{sv}')]
+    def arr(code, n):
+        proto = {b'y': 1, b'b': 1, b'n': -2, b'q': 7, b'i': -9, b'u': 11, b'x': -12, b't': 13, b'd': 0x4000000000000000, b's': b'e', b'o': b'/e', b'g': b'i'}[code]
+        vals = []
+        for k in range(n):
+            if code in (b's',):
+                vals.append((code, proto * k))
+            elif code == b'o':
+                vals.append((code, b'/e' + b'x' * k))
+            elif code == b'g':
+                vals.append((code, b'i' * k))
+            elif code == b'b':
+                vals.append((code, k % 2))
+            elif code == b'y':
+                vals.append((code, (proto + k) % 256))
+            else:
+                vals.append((code, proto + k if code != b'd' else proto + k))
+        return (b'a' + code, vals)
+    arrays = [arr(bytes([c]), n) for c in b'ybnqiuxtdsog' for n in (0, 1, 3)]
+    singles = basics + arrays
+    for v in singles:
+        yield [v]
+    for a in singles:
+        for b in singles:
+            yield [a, b]
+    yield [(b'y', 1), (b's', b'a'), (b'ai', [(b'i', 1)]), (b'as', [(b's', b'x'), (b's', b'yy')]), (b'd', 5), (b'ay', []), (b'g', b'i'), (b't', 9)]
+
+
 def programs(tier):
     rich = True           # the quick tier uses what used to be the thorough alphabet
     call_fields = [(R.F_PATH, (b'o', b'/a')), (R.F_INTERFACE, (b's', b'a.b')), (R.F_MEMBER, (b's', b'M'))]
@@ -167,6 +207,12 @@ def programs(tier):
         yield ('g', 'i', (R.MT_CALL, 0, 7, list(call_fields), body))
         if any(v[0][:1] == b'a' and len(v[0]) == 2 and v[0][1:2] in b'ybnqiuxtd' for v in body):
             yield ('g', 'f', (R.MT_CALL, 0, 7, list(call_fields), body))
+        # the variable-argument builder, dbus_message_append_args(), for every body it can express (basic values, arrays
+        # of fixed-size values, arrays of strings / object paths / signatures; at most 8 arguments)
+        if body and len(body) <= 8 and all(_flat(v[0]) for v in body):
+            yield ('g', 'v', (R.MT_CALL, 0, 7, list(call_fields), body))
+    for body in varargs_bodies():
+        yield ('g', 'v', (R.MT_SIGNAL, 0, 9, [(R.F_PATH, (b'o', b'/a')), (R.F_INTERFACE, (b's', b'a.b')), (R.F_MEMBER, (b's', b'S'))], body))
     # header programs: setters are called in the fixed order path, iface, member, dest, errname, sender, cinst, rserial
     order = [R.F_PATH, R.F_INTERFACE, R.F_MEMBER, R.F_DESTINATION, R.F_ERROR_NAME, R.F_SENDER, R.F_CONTAINER_INSTANCE, R.F_REPLY_SERIAL]
     vals = {R.F_PATH: (b'o', b'/a/b'), R.F_INTERFACE: (b's', b'x.y'), R.F_MEMBER: (b's', b'Mem'), R.F_DESTINATION: (b's', b':1.5'),
